@@ -50,7 +50,7 @@ LATS = [(1, 2), (2, 1), (2, 2), (1, 3), (3, 1), (2, 3)]
 
 def cases(tier, seed):
     out = []
-    reps = 1 if tier == 'quick' else 4
+    reps = 1 if tier == 'quick' else 60
     for rep in range(reps):
         for i, row in enumerate(cat.covering({'fam': list(range(len(FAMS))), 'lat': list(range(len(LATS))), 'gate': ['local', 'local_odd', 'nn', 'nn_rev', 'path2', 'mpo3'], 'anc': [False, False, True],
                                               'dtype': ['real', 'complex']}, seed=seed * 3 + rep, strength=2)):
@@ -67,7 +67,8 @@ def cases(tier, seed):
             out.append(c)
     for g in ['hopping', 'Ising', 'occupation', 'field', 'Coulomb', 'Heisenberg_H', 'tJ_H', 'nn_exp', 'local_exp']:
         for symn in ('Z2', 'U1', 'dense'):
-            out.append({'kind': 'closed_form', 'gate': g, 'sym': symn, 'tier': tier, 'id': f'closed-{g}-{symn}', 'seed': hash_seed(seed, 'C11', g, symn)})
+            for stepkind in ('real', 'complex'):
+                out.append({'kind': 'closed_form', 'gate': g, 'sym': symn, 'step': stepkind, 'tier': tier, 'id': f'closed-{g}-{symn}-{stepkind}', 'seed': hash_seed(seed, 'C11', g, symn, stepkind)})
     for i, fam in enumerate(range(len(FAMS))):
         out.append({'kind': 'split', 'fam': fam, 'tier': tier, 'id': f'split-{i}', 'seed': hash_seed(seed, 'C11', 'split', i)})
     return out
@@ -239,7 +240,7 @@ def _sym_peps(ctx, rng, ops, geo, name, anc, dtype, symbolic_sites=None, D=2):
     for b in geo.bonds():
         bl[b] = vleg()
     psi = fpeps.Peps(geo)
-    anc_leg = ph.conj() if anc else None
+    anc_legs = {}
     k = 0
     for s in sites:
         t_ = geo.nn_site(s, 't'); l_ = geo.nn_site(s, 'l'); b_ = geo.nn_site(s, 'b'); r_ = geo.nn_site(s, 'r')
@@ -247,37 +248,43 @@ def _sym_peps(ctx, rng, ops, geo, name, anc, dtype, symbolic_sites=None, D=2):
         ll = bl[(l_, s)].conj() if l_ is not None else one.conj()
         lb = bl[(s, b_)] if b_ is not None else one
         lr = bl[(s, r_)] if r_ is not None else one
-        legs = [lt, ll, lb, lr, ph] + ([anc_leg] if anc else [])
+        # every PEPS tensor has charge ZERO (fermionic PEPS are built from even tensors): purification = full ancilla leg; pure state = a
+        # one-dimensional ancilla leg carrying the offsetting charge, exactly as fpeps.product_peps builds them (vector.add_leg(s=-1))
+        if anc:
+            cand_anc = [ph.conj()]
+        elif nsym == 0:
+            cand_anc = [yastn.Leg(cfg, s=-1, D=(1,))]
+        else:
+            cs = sorted({tuple(cfg.sym.add_charges(a, b, signatures=(1, -1))) for a in ph.t for b in ph.t} | set(ph.t))
+            rng.shuffle(cs)
+            cand_anc = [yastn.Leg(cfg, s=-1, t=[c], D=[1]) for c in cs]
         best = None
-        for n in ([tuple(cfg.sym.zero())] + sorted(set(ph.t))) if nsym else [()]:
-            try:
-                t = yastn.zeros(config=cfg, legs=legs, n=n if nsym else None)
-            except yastn.YastnError:
-                continue
-            if t.size > 0 and (best is None or t.size > best.size):
-                best = t
+        for al in cand_anc:
+            t = yastn.zeros(config=cfg, legs=[lt, ll, lb, lr, ph, al])
+            if t.size > 0 and (best is None or t.size > best[0].size):
+                best = (t, al)
         if best is None:
             ctx.skip('no admissible PEPS tensor')
-        t = best
+        t, al = best
+        anc_legs[s] = al
         if symbolic_sites is None or k in symbolic_sites:
             ctx.fill(t, f'{name}{k}', dtype)
         else:
             from .mpscommon import const_data
             t._data = const_data(ctx, rng, t.size, dtype == 'complex')
-        if anc:
-            t = t.fuse_legs(axes=(0, 1, 2, 3, (4, 5)))
-        psi[s] = t
+        psi[s] = t.fuse_legs(axes=(0, 1, 2, 3, (4, 5)))
         k += 1
-    return psi
+    return psi, anc_legs
 
 
-def _dense_state(ctx, psi, ph, anc):
-    """dense array of to_tensor() (the observation function of the property) with one axis per mode, and the list of mode legs"""
+def _dense_state(ctx, psi, ph, anc_legs, sites_f):
+    """dense array of to_tensor() (the observation function of the property): axes (s0, a0, s1, a1, ...) in the PEPS fermionic order"""
     T = psi.to_tensor()
-    nm = T.ndim
     legs = []
-    for k in range(nm):
-        legs.append(ph if (not anc or k % 2 == 0) else ph.conj())
+    for s in sites_f:
+        legs += [ph, anc_legs[s]]
+    if T.ndim != len(legs):
+        ctx.check(False, 'to_tensor: one system and one ancilla leg per site', (T.ndim, len(legs)))
     return _dense_local(ctx, T, legs), legs
 
 
@@ -337,18 +344,18 @@ def k_apply(ctx, spec):
     sites_f = _f_order(geo)
     nsites = len(sites_f)
     d = sum(ph.D)
-    nmodes = nsites * (2 if anc else 1)
-    if d ** nmodes > 256:
+    nmodes = 2 * nsites
+    dim = d ** nsites * (d ** nsites if anc else 1)
+    if dim > 256:
         ctx.skip('dense state too large')
-    symb = None if d ** nmodes <= 32 else set(rng.sample(range(nsites), 2))
-    psi = _sym_peps(ctx, rng, ops, geo, 'p', anc, spec['dtype'], symbolic_sites=symb)
-    X0, legs = _dense_state(ctx, psi, ph, anc)
-    ctx.check(X0.ndim == nmodes, 'to_tensor: one leg per site (and ancilla)', (X0.ndim, nmodes))
-    # fermionic order of the modes of to_tensor(): system legs in the PEPS order; with ancillas the tensor axes are (s0, a0, s1, a1, ..) but
-    # to_tensor() swaps every ancilla leg with all later legs, i.e. the ancillas follow ALL system modes (in reverse order)
-    rank = [(k // 2 if k % 2 == 0 else 2 * nsites - 1 - k // 2) for k in range(nmodes)] if anc else None
+    symb = None if dim <= 32 else set(rng.sample(range(nsites), 2))
+    psi, anc_legs = _sym_peps(ctx, rng, ops, geo, 'p', anc, spec['dtype'], symbolic_sites=symb)
+    X0, legs = _dense_state(ctx, psi, ph, anc_legs, sites_f)
+    # fermionic order of the modes of to_tensor(): the tensor axes are (s0, a0, s1, a1, ..) but to_tensor() swaps every ancilla leg with all
+    # later legs, i.e. the ancillas follow ALL system modes (in reverse order); system modes are in the PEPS fermionic order
+    rank = [(k // 2 if k % 2 == 0 else 2 * nsites - 1 - k // 2) for k in range(nmodes)]
     modes = Modes(ctx, cfg, legs, rank)
-    mode_of = {s: (2 * k if anc else k) for k, s in enumerate(sites_f)}
+    mode_of = {s: 2 * k for k, s in enumerate(sites_f)}
     gate = spec['gate']
     bonds = list(geo.bonds())
     if gate == 'local_odd':
@@ -356,57 +363,74 @@ def k_apply(ctx, spec):
         # two-site gate carry their charge on the auxiliary leg).  It leaves a site tensor of odd charge, for which the sign convention of
         # to_tensor() is not defined by the property (seed 1 showed site-dependent signs): outside the statement, replaced by an even local gate
         gate = 'local'
-    if gate in ('local', 'local_odd'):
-        s0 = rng.choice(sites_f)
-        G = _sym_gate(ctx, rng, cfg, ph, gate)
-        gsites = (s0,)
-        g = fpeps.gates.Gate(G=tuple(G), sites=gsites)
+    # the same symbolic PEPS receives the gate at several placements (each on its own shallow copy)
+    if gate == 'local':
+        G = _sym_gate(ctx, rng, cfg, ph, 'local')
+        placements = [((s0,), tuple(G)) for s0 in rng.sample(sites_f, min(2, nsites))]
     elif gate in ('nn', 'nn_rev'):
-        b = rng.choice(bonds)
-        gsites = tuple(b) if gate == 'nn' else tuple(b[::-1])
         G = _sym_gate(ctx, rng, cfg, ph, 'nn')
-        g = fpeps.gates.Gate(G=tuple(G), sites=gsites)
+        bs = rng.sample(bonds, min(3, len(bonds)))
+        placements = [((tuple(b) if gate == 'nn' else tuple(b[::-1])), tuple(G)) for b in bs]
     elif gate == 'path2':
         paths = _paths(geo, 3)
         if not paths:
             ctx.skip('no 3-site path')
-        gsites = tuple(rng.choice(paths))
         G = _sym_gate(ctx, rng, cfg, ph, 'nn')
-        g = fpeps.gates.Gate(G=tuple(G), sites=gsites)
+        placements = [(tuple(pth), tuple(G)) for pth in rng.sample(paths, min(4, len(paths)))]
     else:   # 3-site (or 2-site) MPO gate: a product term with symbolic amplitude, first MPO site first in the MPO's own order
         L = 3 if nsites >= 3 else 2
         paths = _paths(geo, L)
         if not paths:
             ctx.skip('no path')
-        gsites = tuple(rng.choice(paths))
         names = {k: f(0) for k, f in ops.to_dict().items() if _try(f)}
         keys = [k for k in names if k != 'I' and names[k].ndim == 2 and not _irr(names[k])]
-        opn = [rng.choice(keys) for _ in range(rng.choice([1, 2, 3]))]
-        pos = [rng.randrange(L) for _ in opn]
+        fss = _fss(cfg)
+        oddk = [k for k in keys if any(fss) and any(names[k].n[c] % 2 for c in range(len(fss)) if fss[c])]
+        for _ in range(200):
+            # a gate is an even operator (exponential of an even Hamiltonian): total parity even in every fermionic component
+            if oddk and rng.random() < 0.6:
+                # odd operators on the two END sites: the middle tensor of the MPO then carries an odd virtual charge
+                opn = [rng.choice(oddk), rng.choice(oddk)] + ([rng.choice(keys)] if rng.random() < 0.3 else [])
+                pos = [0, L - 1] + ([rng.randrange(L)] if len(opn) == 3 else [])
+            else:
+                opn = [rng.choice(keys) for _ in range(rng.choice([1, 2, 2, 3, 4]))]
+                pos = [rng.randrange(L) for _ in opn]
+            if not any(fss) or all(sum(names[k].n[c] for k in opn) % 2 == 0 for c in range(len(fss)) if fss[c]):
+                break
+        else:
+            ctx.skip('no even product found')
         amp = ctx.scalar('amp', 'real')
         H = mps.generate_mpo(mps.product_mpo(ops.I(), L), [mps.Hterm(amp, tuple(pos), tuple(names[k] for k in opn))])
         if any(H[n].size == 0 for n in range(L)):
             ctx.skip('vanishing product')
-        g = fpeps.gates.Gate(G=H, sites=gsites)
-    phi = psi.shallow_copy()
-    phi.apply_gate_(g)
-    for s in geo.sites():
-        wellformed(ctx, phi[s], f'apply_gate_: tensor at {s}', check_dense_zero=False)
-    X1, legs1 = _dense_state(ctx, phi, ph, anc)
-    # reference: the gate operator applied to the dense state mode by mode
-    if gate == 'mpo3':
-        ref = X0
-        for k, p in list(zip(opn, pos))[::-1]:
-            M = _dense_local(ctx, names[k], [ph, ph.conj()])
-            ref = modes.apply(ref, M, tuple(names[k].n), mode_of[gsites[p]])
-        ref = ref * amp
-    elif gate == 'path2':
-        ref = _gate_apply(ctx, modes, list(g.G), [mode_of[gsites[0]], mode_of[gsites[-1]]], ph, X0)
-    else:
-        ref = _gate_apply(ctx, modes, list(g.G), [mode_of[s] for s in gsites], ph, X0)
-    ctx.eq(X1, ref, f'to_tensor(apply_gate_({gate} on {gsites}, ancilla={anc})) == dense gate . to_tensor(psi)')
-    # the source of the shallow copy is untouched
-    return {'fam': fam, 'sym': symn, 'lat': LATS[spec['lat']], 'gate': gate, 'sites': gsites, 'anc': anc}
+        # the separated factor of an MPO belongs to the operator (scalar x MPO, -MPO)
+        fac = rng.choice([1, Fraction(5, 2), -1, Fraction(-1, 2)])
+        fac = fac if ctx.mode == 'sym' else float(fac)
+        if fac != 1:
+            H = fac * H
+        placements = [(tuple(pth), H) for pth in rng.sample(paths, min(4, len(paths)))]
+    done = []
+    for gsites, GG in placements:
+        g = fpeps.gates.Gate(G=GG, sites=gsites)
+        phi = psi.shallow_copy()
+        phi.apply_gate_(g)
+        for s in geo.sites():
+            wellformed(ctx, phi[s], f'apply_gate_: tensor at {s}', check_dense_zero=False)
+        X1, legs1 = _dense_state(ctx, phi, ph, anc_legs, sites_f)
+        # reference: the gate operator applied to the dense state mode by mode
+        if gate == 'mpo3':
+            ref = X0
+            for k, p_ in list(zip(opn, pos))[::-1]:
+                M = _dense_local(ctx, names[k], [ph, ph.conj()])
+                ref = modes.apply(ref, M, tuple(names[k].n), mode_of[gsites[p_]])
+            ref = ref * amp * fac
+        elif gate == 'path2':
+            ref = _gate_apply(ctx, modes, list(g.G), [mode_of[gsites[0]], mode_of[gsites[-1]]], ph, X0)
+        else:
+            ref = _gate_apply(ctx, modes, list(g.G), [mode_of[s] for s in gsites], ph, X0)
+        ctx.eq(X1, ref, f'to_tensor(apply_gate_({gate} on {gsites}, ancilla={anc})) == dense gate . to_tensor(psi)')
+        done.append(gsites)
+    return {'fam': fam, 'sym': symn, 'lat': LATS[spec['lat']], 'gate': gate, 'placements': done, 'anc': anc}
 
 
 def _try(f):
@@ -453,19 +477,23 @@ def k_add(ctx, spec):
     seed_rng = rng.random()
     import random
     states = []
+    sites_f = _f_order(geo)
+    anc_legs = None
     for k in range(n):
         r2 = random.Random(seed_rng)
-        states.append(_sym_peps(ctx, r2, ops, geo, f's{k}_', False, 'real'))
+        st, al = _sym_peps(ctx, r2, ops, geo, f's{k}_', False, 'real')
+        states.append(st)
+        anc_legs = al
     amps = [ctx.scalar(f'a{k}', 'real') for k in range(n)]
     tot = fpeps.add(*states, amplitudes=amps)
-    X, _ = _dense_state(ctx, tot, ph, False)
+    X, _ = _dense_state(ctx, tot, ph, anc_legs, sites_f)
     ref = None
-    for a, s in zip(amps, states):
-        Y, _ = _dense_state(ctx, s, ph, False)
+    for a, s_ in zip(amps, states):
+        Y, _ = _dense_state(ctx, s_, ph, anc_legs, sites_f)
         ref = Y * a if ref is None else ref + Y * a
     ctx.eq(X, ref, 'to_tensor(add(states, amplitudes)) == weighted sum of to_tensor(state)')
-    Y2, _ = _dense_state(ctx, states[0] + states[1], ph, False)
-    ctx.eq(Y2, _dense_state(ctx, states[0], ph, False)[0] + _dense_state(ctx, states[1], ph, False)[0], 'a + b')
+    Y2, _ = _dense_state(ctx, states[0] + states[1], ph, anc_legs, sites_f)
+    ctx.eq(Y2, _dense_state(ctx, states[0], ph, anc_legs, sites_f)[0] + _dense_state(ctx, states[1], ph, anc_legs, sites_f)[0], 'a + b')
     return {'fam': fam, 'sym': symn, 'n': n}
 
 
@@ -615,7 +643,7 @@ def _fk(M):
 def _closed(ctx, spec, rng, gate, symn, cfg0, captured, GT):
     import yastn
     t = ctx.scalar('t', 'real')
-    step = ctx.scalar('step', 'real')
+    step = ctx.scalar('step', spec.get('step', 'real'))        # real, or complex (imaginary-time / real-time / mixed steps)
     sym_mode = ctx.mode == 'sym'
     cosh = (lambda x: x.cosh()) if sym_mode else np.cosh
     sinh = (lambda x: x.sinh()) if sym_mode else np.sinh
